@@ -382,8 +382,7 @@ def run_reader(kind: str, contents: list[bytes], chunks: list[bytes], plan: list
             if i < len(marks):
                 a = marks[i]
                 b = marks[i + 1] if i + 1 < len(marks) else len(out)
-                if b > a:
-                    replies.append((echo_reply(raw), out[a:b]))
+                replies.append((echo_reply(raw), out[a:b]))  # b == a: the loop wrote nothing for this reply
     return {"kind": kind, "ev": rec.ev, "rb": rec.rb, "tab": rec.tab, "wire": stream, "notes": rec.notes,
             "replies": replies, "outcomes": rec.outcomes()}
 
@@ -632,12 +631,11 @@ async def real_end_to_end(kind: str, msgs: list[bytes], mode: str, tmpdir: str) 
         orig = w.write
 
         def wr(data: bytes) -> None:
-            # every byte put on the stream belongs to the message being written
+            # every byte put on the stream belongs to the message handed over last
             if rec.open_send is not None:
                 rec.ev[rec.open_send]["n"] += len(data)
             else:
-                rec.open_send = len(rec.ev)
-                rec.ev.append(E("Send", c=rec.cid(current[0]), n=len(data)))
+                rec.note("bytes-written-outside-a-message")
             orig(data)
 
         w.write = wr
@@ -650,7 +648,7 @@ async def real_end_to_end(kind: str, msgs: list[bytes], mode: str, tmpdir: str) 
 
         def on_respond() -> None:
             cur_reply[0] = echo_reply(srv.server.current_raw)  # type: ignore[attr-defined]
-            _seal(down)
+            _hand_over(down, cur_reply[0])
 
         srv.server.on_respond = on_respond  # type: ignore[attr-defined]
         try:
@@ -694,8 +692,8 @@ async def real_end_to_end(kind: str, msgs: list[bytes], mode: str, tmpdir: str) 
             return bool(data)
 
         async def write_one(m: bytes) -> None:
-            _seal(up)
             cur_req[0] = m
+            _hand_over(up, m)
             await tr.write(m, timeout=E2E_READ_TO_S)
 
         good = True  # the exchange stops at the first read that does not return a message
@@ -712,7 +710,6 @@ async def real_end_to_end(kind: str, msgs: list[bytes], mode: str, tmpdir: str) 
                 good = await read_one()
                 if not good:
                     break
-        _seal(up)
         if good and tr.writer.can_write_eof():
             tr.writer.write_eof()
             try:
@@ -735,9 +732,10 @@ async def real_end_to_end(kind: str, msgs: list[bytes], mode: str, tmpdir: str) 
     return out
 
 
-def _seal(rec: Rec) -> None:
-    """The next bytes written belong to a new message."""
-    rec.open_send = None
+def _hand_over(rec: Rec, content: bytes) -> None:
+    """The sender hands `content` to its transport: the bytes written from now on belong to it."""
+    rec.open_send = len(rec.ev)
+    rec.ev.append(E("Send", c=rec.cid(content), n=0))
 
 
 def run_real(coro_fn: Callable[[str], Awaitable[Any]]) -> Any:
